@@ -173,7 +173,7 @@ type c09State struct {
 func isRangeResp(t types.Type) bool { return typeIs(t, pbPkg, "ResponseOp_Range") }
 
 func checkC09(w *World, r *Report) {
-	r.Decides = "C09 is decided in its structural part only: (a) the Pebble-iterator / response protocol of the lazy range generator as a typestate (no advance over an unconsumed pair, consume only a valid pair, 'more' at the final message agrees with the iterator position, every non-final message is flagged more and followed by a fresh response, one iterator per stream); (b) the limit guard and its counter; (c) the size cut precedes the pair it makes room for and the cut constant is below the transport limit; (d) count bookkeeping of the fill functions; (e) Kvs/Count/More are handed over field for field by table, engine and server and every pulled message is sent; (g) a range read nested in a write transaction reads the apply batch, i.e. the same state a plain read issued right after would see (C01.d)."
+	r.Decides = "C09 is decided in its structural part only: (a) the Pebble-iterator / response protocol of the lazy range generator as a typestate (no advance over an unconsumed pair, consume only a valid pair, 'more' at the final message agrees with the iterator position, every non-final message is flagged more and followed by a fresh response, one iterator per stream); (b) the limit guard and its counter; (c) the size cut precedes the pair it makes room for and the cut constant is below the transport limit; (d) count bookkeeping of the fill functions; (e) Kvs/Count/More are handed over field for field by table, engine and server and every pulled message is sent; (g) a range read nested in a write transaction reads the apply batch, i.e. the same state a plain read issued right after would see (C01.d). Also: the table layer hands out the state machine's sequence itself; the size cut is the sum form (an unsigned difference is not linear)."
 	r.NotDecided = []string{"ascending order and absence of duplicates (Pebble's iterator contract)", "the actual encoded size of a message", "equality of keys-only/count-only answers with the full read at value level"}
 	r.Assume = []string{"pebble.Iterator: First/Next return true iff positioned on a pair; Key/Value are valid only then", "a response object is only modified through the fill functions and the More field"}
 
@@ -669,6 +669,30 @@ func c09Fill(w *World, r *Report, outer []*ssa.Function) {
 // c09HandOver: C09.e — table, engine and server pass Kvs/Count/More on unchanged.
 func c09HandOver(w *World, r *Report) {
 	ob := r.Ob("C09.e", "e-hand-over", "every RangeResponse literal built from a state-machine range response copies Kvs, Count and More from the same source, field for field; the streaming handler sends each pulled message before pulling the next", "breaking it drops pairs, the count or the more flag between the state machine and the client")
+
+	// the table layer hands out the state machine's lazy sequence itself, not a wrapper that can
+	// end it early (a wrapper bound to the request context stops after the first message when the
+	// caller cancels its derived context on return)
+	if it := w.Func("storage/table", "ActiveTable.Iterator"); it != nil {
+		eachInstr(it, func(in ssa.Instruction) {
+			ret, ok := in.(*ssa.Return)
+			if !ok || isErrorReturn(ret) || len(ret.Results) < 1 {
+				return
+			}
+			v := retVal(ret, 0)
+			ob.Site(ret.Pos(), "ActiveTable.Iterator returns "+Expr(v))
+			for d := 0; d < 3; d++ {
+				if ct, ok := v.(*ssa.ChangeType); ok {
+					v = ct.X
+				}
+			}
+			if _, isClosure := v.(*ssa.MakeClosure); isClosure {
+				ob.Violate("iterator-wrapped", ret.Pos(), "ActiveTable.Iterator returns a closure of its own round the state machine's sequence: the stream can end before the sequence does (flagged more=true, nothing follows)")
+			}
+		})
+	} else {
+		ob.Undecided("anchor@Iterator", "ActiveTable.Iterator not found")
+	}
 	type site struct{ rel, fn string }
 	for _, s := range []site{{"storage/table", "ActiveTable.Range"}, {"storage", "Engine.IterateRange"}} {
 		fn := w.Func(s.rel, s.fn)
